@@ -214,15 +214,23 @@ def rule_frames(program, ctx):
         for c in sends:
             a = c.args[0] if c.args else None
             st = enclosing_stmt(c)
-            exprs = [a]
-            if isinstance(a, ast.Name):
-                exprs = []
-                for d in it.rd.reaching(st, a.id):
-                    s = it.cfg.ast_of(d)
-                    if isinstance(s, ast.Assign):
-                        exprs.append(s.value)
+            def sources(expr, at_stmt, depth=4):
+                """the expressions a name can hold at `at_stmt` (through name-to-name re-bindings)"""
+                if not isinstance(expr, ast.Name) or depth == 0:
+                    return [expr]
+                out = []
+                defs = it.rd.reaching(at_stmt, expr.id)
+                if not defs:
+                    return [None]
+                for d in defs:
+                    s_ = it.cfg.ast_of(d)
+                    if isinstance(s_, ast.Assign):
+                        out += sources(s_.value, s_, depth - 1)
                     else:
-                        exprs.append(None)
+                        out.append(None)
+                return out
+
+            exprs = sources(a, st)
             for e in exprs:
                 if e is None:
                     ctx.bad(finding_at(P, rid, c, "the frame sent comes from a binding the checker cannot read as a frame constructor"))
@@ -233,9 +241,9 @@ def rule_frames(program, ctx):
                     if isinstance(arg, ast.List) and arg.elts and isinstance(arg.elts[0], ast.Constant):
                         heads = {arg.elts[0].value}
                     elif isinstance(arg, ast.Name):
-                        for d in stores_of(fn, arg.id):
-                            if isinstance(d, ast.Assign) and isinstance(d.value, ast.List) and d.value.elts and isinstance(d.value.elts[0], ast.Constant):
-                                heads.add(d.value.elts[0].value)
+                        for v_ in sources(arg, st):
+                            if isinstance(v_, ast.List) and v_.elts and isinstance(v_.elts[0], ast.Constant):
+                                heads.add(v_.elts[0].value)
                             else:
                                 heads.add(None)
                     if heads and heads <= HEADS:
